@@ -108,6 +108,7 @@ func TestC04Sequences(t *testing.T) {
 					o.PreCancelled, o.Deadline = true, true
 				case "E":
 					o.UseCtx = i%2 == 0
+					o.Detached = i%4 == 2 // a live context that carries the values of a request that is over
 				case "H":
 					// every other one through the caller's own context type (which ends on its own
 					// terms while the application context it wraps stays live)
